@@ -44,6 +44,9 @@ type C17Child struct {
 	Drop   bool `json:"drop,omitempty"`
 	DropAt int  `json:"drop_at,omitempty"`
 	Unread bool `json:"unread,omitempty"`
+	// QuietMs > 0: the child stays connected and silent for this long (real time) before it sends frame QuietAt
+	QuietMs int `json:"quiet_ms,omitempty"`
+	QuietAt int `json:"quiet_at,omitempty"`
 }
 
 type C17Scenario struct {
@@ -51,6 +54,9 @@ type C17Scenario struct {
 	Kind     string     `json:"kind"` // frame | handover
 	Frames   []C17Frame `json:"frames,omitempty"`
 	Children []C17Child `json:"children,omitempty"`
+	// Slow: the steps of the old process take time (each blocks until the harness lets it finish), so that the
+	// moment of the acknowledgement relative to the step is observable
+	Slow bool `json:"slow,omitempty"`
 }
 
 func (s *C17Scenario) GetMeta() *harness.Meta { return &s.Meta }
@@ -173,6 +179,22 @@ func (p c17) Gen(r *simhook.Rand, tier string, idx int) harness.Scenario {
 		}
 		sc.Children = append(sc.Children, ch)
 	}
+	if r.Chance(1, 3) {
+		sc.Slow = true
+		sc.Class = "handover-slow-steps"
+	}
+	if r.Chance(1, 300) {
+		// a child that lets several seconds pass between two requests (a real hand-over waits minutes between drain
+		// and terminate; real time cannot be faked on this transport, so the pause is short and rare)
+		for ci := range sc.Children {
+			if ch := &sc.Children[ci]; len(ch.Frames) >= 2 && !ch.Drop {
+				ch.QuietAt = 1 + r.Intn(len(ch.Frames)-1)
+				ch.QuietMs = 5500 + r.Intn(1500)
+				sc.Class = "handover-quiet-child"
+				break
+			}
+		}
+	}
 	return sc
 }
 
@@ -182,9 +204,28 @@ type c17Instance struct {
 	id, parent int
 	mu         sync.Mutex
 	calls      []string
+	slow       bool
+	entered    chan string   // a slow step has begun
+	gate       chan struct{} // ... and may finish
 }
 
-func (i *c17Instance) rec(s string) { i.mu.Lock(); i.calls = append(i.calls, s); i.mu.Unlock() }
+func (i *c17Instance) rec(s string)    { i.mu.Lock(); i.calls = append(i.calls, s); i.mu.Unlock() }
+func (i *c17Instance) setSlow(on bool) { i.mu.Lock(); i.slow = on; i.mu.Unlock() }
+
+// step: a hand-over step of the old process; in slow mode it begins, waits for the harness, and only then counts as performed
+func (i *c17Instance) step(s string) {
+	i.mu.Lock()
+	slow := i.slow
+	i.mu.Unlock()
+	if slow {
+		i.entered <- s
+		select {
+		case <-i.gate:
+		case <-time.After(c17Guard):
+		}
+	}
+	i.rec(s)
+}
 func (i *c17Instance) snapshot() []string {
 	i.mu.Lock()
 	defer i.mu.Unlock()
@@ -192,9 +233,9 @@ func (i *c17Instance) snapshot() []string {
 }
 func (i *c17Instance) ID() int            { return i.id }
 func (i *c17Instance) ParentID() int      { return i.parent }
-func (i *c17Instance) ShutdownAdmin()     { i.rec("ShutdownAdmin") }
-func (i *c17Instance) DrainListeners()    { i.rec("DrainListeners") }
-func (i *c17Instance) ShutdownLocalConf() { i.rec("ShutdownLocalConf") }
+func (i *c17Instance) ShutdownAdmin()     { i.step("ShutdownAdmin") }
+func (i *c17Instance) DrainListeners()    { i.step("DrainListeners") }
+func (i *c17Instance) ShutdownLocalConf() { i.step("ShutdownLocalConf") }
 func (i *c17Instance) Shutdown()          { i.rec("Shutdown") }
 
 func c17NewID() int {
@@ -350,6 +391,23 @@ func c17Drained(conn *net.UnixConn) bool {
 	}
 }
 
+// c17Readable: bytes waiting in the connection's receive queue (kernel state).
+func c17Readable(conn *net.UnixConn) int {
+	rc, err := conn.SyscallConn()
+	if err != nil {
+		panic("C17 infrastructure: " + err.Error())
+	}
+	var q int32
+	var errno syscall.Errno
+	rc.Control(func(fd uintptr) {
+		_, _, errno = syscall.Syscall(syscall.SYS_IOCTL, fd, syscall.TIOCINQ, uintptr(unsafe.Pointer(&q)))
+	})
+	if errno != 0 {
+		panic("C17 infrastructure: SIOCINQ: " + errno.Error())
+	}
+	return int(q)
+}
+
 // c17Pending: bytes received from the parent and not yet consumed, per connection (replies are framed by their
 // length field: the child end treats the channel as the byte stream it is).
 var c17Pending = map[*net.UnixConn][]byte{}
@@ -377,7 +435,7 @@ func c17ReadReply(conn *net.UnixConn) (typ int, data []byte, err error) {
 }
 
 func (p c17) runHandover(sc *C17Scenario, probes, faults map[string]int, obs *bytes.Buffer) (*simrt.Violation, bool) {
-	inst := &c17Instance{id: c17NewID()}
+	inst := &c17Instance{id: c17NewID(), entered: make(chan string, 256), gate: make(chan struct{}, 256)}
 	hotrestart.VerifSetKill(func(pid int, sig syscall.Signal) error {
 		if pid != os.Getpid() {
 			inst.rec(fmt.Sprintf("kill(pid %d!)", pid))
@@ -439,6 +497,7 @@ func (p c17) runHandover(sc *C17Scenario, probes, faults map[string]int, obs *by
 		where := fmt.Sprintf("child %d", ci)
 		if len(ch.API) > 0 {
 			// a real child: Restarter with ParentID
+			inst.setSlow(false) // its calls wait for the replies themselves
 			cinst := &c17Instance{id: c17NewID(), parent: inst.id}
 			child, err := hotrestart.New(cinst)
 			if err != nil {
@@ -500,9 +559,17 @@ func (p c17) runHandover(sc *C17Scenario, probes, faults map[string]int, obs *by
 		conn := c.(*net.UnixConn)
 		open = append(open, conn)
 		closed := false
+		inst.setSlow(sc.Slow)
 		for fi, f := range ch.Frames {
 			probes["c17.frames"]++
 			simrt.Progress.Add(1)
+			if ch.QuietMs > 0 && fi == ch.QuietAt {
+				faults["quiet-period"]++
+				for left := ch.QuietMs; left > 0; left -= 500 {
+					time.Sleep(500 * time.Millisecond)
+					simrt.Progress.Add(1)
+				}
+			}
 			raw := f.bytes(fi)
 			desc := fmt.Sprintf("%s frame %d (type %d, length field %d, %d bytes on the wire)", where, fi, f.Typ, f.Declared, len(raw))
 			if f.Typed && f.Actual >= 0 {
@@ -527,6 +594,22 @@ func (p c17) runHandover(sc *C17Scenario, probes, faults map[string]int, obs *by
 				faults["truncated-header"]++
 			} else {
 				faults["truncated-payload"]++
+			}
+			if _, isStep := c17Steps[f.Typ]; sc.Slow && f.wellFormed() && isStep && f.Typ != 7 {
+				// the step has begun and cannot finish before the harness says so: an acknowledgement that is
+				// already in the child's receive queue was sent before the step was performed (kernel queue state,
+				// no clock: the reply is written by the same goroutine that performs the step)
+				select {
+				case <-inst.entered:
+				case <-time.After(c17Guard):
+					return &simrt.Violation{Clause: "each-step-once-in-order", Detail: fmt.Sprintf("%s: the old process did not begin the requested step within %v; performed so far %v", desc, c17Guard, inst.snapshot())}, true
+				}
+				probes["c17.slow-step-observed"]++
+				if n := c17Readable(conn) + len(c17Pending[conn]); n > 0 {
+					inst.gate <- struct{}{}
+					return &simrt.Violation{Clause: "acknowledged-after-performed", Detail: fmt.Sprintf("%s: %d reply bytes had reached the child while the old process was still performing the step (performed so far %v)", desc, n, inst.snapshot())}, true
+				}
+				inst.gate <- struct{}{}
 			}
 			if ch.Drop && fi == ch.DropAt && ch.Unread {
 				faults["child-dropped-before-reading-reply"]++
@@ -575,6 +658,7 @@ func (p c17) runHandover(sc *C17Scenario, probes, faults map[string]int, obs *by
 		faults["child-closed"]++
 	}
 	// a last child completes a hand-over step after everything that happened
+	inst.setSlow(false)
 	c, err := net.Dial("unix", sock)
 	if err != nil {
 		return &simrt.Violation{Clause: "later-child-served", Detail: fmt.Sprintf("the last child cannot connect to the control socket: %v", err)}, true
@@ -615,6 +699,11 @@ func (p c17) Shrink(s harness.Scenario) []harness.Scenario {
 		c.Children = append(append([]C17Child(nil), sc.Children[:i]...), sc.Children[i+1:]...)
 		out = append(out, &c)
 	}
+	if sc.Slow {
+		c := *sc
+		c.Slow = false
+		out = append(out, &c)
+	}
 	for i, ch := range sc.Children {
 		for j := range ch.Frames {
 			if ch.Drop && j <= ch.DropAt {
@@ -624,6 +713,9 @@ func (p c17) Shrink(s harness.Scenario) []harness.Scenario {
 			c.Children = append([]C17Child(nil), sc.Children...)
 			nc := ch
 			nc.Frames = append(append([]C17Frame(nil), ch.Frames[:j]...), ch.Frames[j+1:]...)
+			if nc.QuietMs > 0 && (j < nc.QuietAt || nc.QuietAt >= len(nc.Frames)) && nc.QuietAt > 0 {
+				nc.QuietAt--
+			}
 			c.Children[i] = nc
 			out = append(out, &c)
 		}
